@@ -36,6 +36,57 @@ class C18(InterpProp):
     BOX = ("\n(event.box.append(1) if getattr(event, 'box', None) is not None else None)"
            "\ny = y + (len(event.box) if getattr(event, 'box', None) is not None else 0)")
 
+    def fork_case(self, rnd):
+        """the original and its copy part ways: the copy (compared with an untouched twin) leaves a compound state that has
+        a history state, the original leaves it later from another child, the copy comes back through the history
+        state — what it finds there is what *it* left"""
+        from sismic.model import (BasicState, CompoundState, DeepHistoryState, ShallowHistoryState, Statechart, Transition)
+        n = rnd.randint(3, 5)
+        sc = Statechart('fork', preamble='x = 0\ny = 0')
+        sc.add_state(CompoundState('root', initial='P'), None)
+        sc.add_state(CompoundState('P', initial='t0'), 'root')
+        sc.add_state(rnd.choice([ShallowHistoryState, DeepHistoryState])('h', memory='t0'), 'P')
+        for i in range(n):
+            sc.add_state(BasicState('t%d' % i, on_entry='x += 1\ny = %d' % i), 'P')
+        for i in range(n):
+            sc.add_transition(Transition('t%d' % i, 't%d' % ((i + 1) % n), event='e'))
+        sc.add_state(BasicState('O', on_entry='x += 10'), 'root')
+        sc.add_transition(Transition('P', 'O', event='f'))
+        sc.add_transition(Transition('O', 'h', event='g'))
+        ops = [['create', 0, False, [], 0], ['create', 0, False, [], 0]]
+        groups = []
+        t = [0]
+
+        def both(subjects, ev):
+            for kind in ('queue', 'exec'):
+                g = []
+                for sl in subjects + [1]:
+                    ops.append(['queue', sl, {'ev': ev, 'data': []}] if kind == 'queue' else ['exec', sl, t[0]])
+                    g.append(len(ops) - 1)
+                groups.append(g)
+        g = []
+        for sl in (0, 1):
+            ops.append(['exec', sl, 0])
+            g.append(len(ops) - 1)
+        groups.append(g)
+        for _ in range(rnd.randint(0, n - 1)):
+            both([0], 'e')
+        ops.append(['snapshot', 0, rnd.choice(['deepcopy-both', 'deepcopy-both', 'pickle-both'])])
+        ops.append(['snapshot', 1, 'none'])
+        groups.append([len(ops) - 2, len(ops) - 1])
+        for _ in range(rnd.randint(1, n - 1)):
+            both([2], 'e')            # the copy moves on inside P ...
+        both([2], 'f')                # ... and leaves it
+        for ev in rnd.choice([['f'], ['e', 'f'], ['f', 'g', 'e', 'f']]):
+            ops.append(['queue', 0, {'ev': ev, 'data': []}])     # the original leaves it from where it was
+            ops.append(['exec', 0, t[0]])
+        both([2], 'g')                # the copy comes back through the history state
+        for ev in [rnd.choice('efg') for _ in range(rnd.randint(0, 3))]:
+            both([2], ev)
+        enc = ChartEnc(sc)
+        payload = {'kind': 'interp', 'charts': [enc.json], 'ops': ops, 'groups': groups, 'via_yaml': False}
+        return Case(payload, {'charts': [sc]}, model_ok=False)
+
     def pair_case(self, rnd, tier):
         """an interpreter bound to another one (`bind`): the snapshot continues like the original, and what it sends
         no longer reaches the interpreter the original was bound to (taking a snapshot disturbs nothing)"""
@@ -103,6 +154,8 @@ class C18(InterpProp):
     def gen_case(self, rnd, tier):
         if rnd.random() < 0.08:
             return self.pair_case(rnd, tier)
+        if rnd.random() < 0.03:
+            return self.fork_case(rnd)
         kn = self.knobs(rnd, tier)
         g = gen.ChartGen(rnd, kn)
         sc = g.build()
@@ -147,6 +200,8 @@ class C18(InterpProp):
         subjects = [0]          # slots holding the interpreter under test and the copies that go on beside it
         side_by_side = box or mut or rnd.random() < 0.2
         copy_first = rnd.random() < 0.5
+        fork = side_by_side and rnd.random() < 0.4
+        forked, tf, tlast = None, 0, 0
         p_snap = 1.0 if tier == 'thorough' and rnd.random() < 0.3 else rnd.choice([0.1, 0.25, 0.5])
         for op in ops1:
             if (op[0] == 'exec' and rnd.random() < p_snap) or (op[0] == 'queue' and rnd.random() < p_snap * 0.3):
@@ -158,10 +213,21 @@ class C18(InterpProp):
                 groups.append([len(ops) - 2, len(ops) - 1])
                 if how.endswith('-both'):
                     # the copy gets the next slot; it runs before the original, or after it
-                    if copy_first:
-                        subjects.insert(0, 1 + len(subjects))
+                    if fork and forked is None and len(subjects) == 1:
+                        # ... or the original goes its own way from here on (other events, nobody looks at it): the copy
+                        # shares nothing with it
+                        forked = subjects[0]
+                        subjects = [2]
+                    elif copy_first:
+                        subjects.insert(0, 1 + len(subjects) + (forked is not None))
                     else:
-                        subjects.append(1 + len(subjects))
+                        subjects.append(1 + len(subjects) + (forked is not None))
+            if op[0] in ('exec', 'setclock') and isinstance(op[2], (int, float)):
+                tlast = max(tlast, op[2])
+            if forked is not None and rnd.random() < 0.6:
+                tf = max(tf + rnd.choice([0, 1]), tlast)
+                ops.append(['queue', forked, {'ev': rnd.choice(gen.EVENTS), 'data': [['v', rnd.randint(0, 4)], ['b', True]]}])
+                ops.append(['exec', forked, tf])
             grp = []
             for sl in subjects + [1]:
                 op2 = list(op)
@@ -175,7 +241,7 @@ class C18(InterpProp):
         if rnd.random() < 0.15:
             # the interpreters' clocks are playing while the snapshot is taken (scripted real time)
             payload['running_clock'] = True
-        return Case(payload, {'charts': [sc]}, model_ok=enc.supported and len(subjects) == 1 and not box and not watch and not mut)
+        return Case(payload, {'charts': [sc]}, model_ok=enc.supported and len(subjects) == 1 and forked is None and not box and not watch and not mut)
 
     def shrink_candidates(self, case):
         if case.payload.get('pair'):
